@@ -22,17 +22,17 @@ import (
 
 // dbScenario is the Go-side description of a db-mode case (Case.X["db"]).
 type dbScenario struct {
-	File    []Row  `json:"file"`  // inserted before the flush (field a)
-	Mem     []Row  `json:"mem"`   // inserted after the flush (field a, or b when Alter)
-	Div     int    `json:"div"`   // dimension g = k / div
-	Alter   bool   `json:"alter"` // field b added after the flush; the query selects b
+	File  []Row `json:"file"`  // inserted before the flush (field a)
+	Mem   []Row `json:"mem"`   // inserted after the flush (field a, or b when Alter)
+	Div   int   `json:"div"`   // dimension g = k / div
+	Alter bool  `json:"alter"` // field b added after the flush; the query selects b
 	// how the field is added.  false: ApplySchema on the running database — the row store then
 	// rewrites its file with the new field list (5961cb2), the case waits for that, so the file
 	// rows carry an empty column b and ARE delivered.  true: the database is closed and reopened
 	// with the new table definition — the file keeps its old field list, its rows map none of the
 	// requested columns and are skipped by the scan (the path fixed by dd8e0db).
-	Restart bool `json:"restart,omitempty"`
-	Big     int    `json:"big"`   // > 0: that many extra one-period keys (memory-cap scenario), reopened with a tiny MaxMemoryRatio
+	Restart bool   `json:"restart,omitempty"`
+	Big     int    `json:"big"` // > 0: that many extra one-period keys (memory-cap scenario), reopened with a tiny MaxMemoryRatio
 	SQL     string `json:"sql"`
 	Mem0    bool   `json:"includeMem"`
 	KeyDim  string `json:"keyDim"`
